@@ -99,7 +99,15 @@ P("C13",
   technique="model-based PBT over real directory trees: generated store type/name/directory shape/entries; all-or-nothing oracle on exact DER multiset and typed errors",
   level_text="Exploration: GetCertificates on generated trust-store trees compared with a model that knows every entry's validity by construction.",
   level_note="FIFOs/devices are excluded (would block); runs as root, so permission-denied classes are not generated.",
-  health={"ok": 50, "fail": 50, "entry=symlink": 10, "entry=subdir": 10, "entry=leaf": 10, "store=symlink": 5, "type=tsa": 20, "name=nonplain": 10})
+  health={"ok": 50, "fail": 50, "model=succeed": 50, "model=either": 5, "type=ca": 20, "type=signingAuthority": 20, "type=tsa": 20, "type=invalid": 10,
+          "name=plain": 50, "name=dotted": 10, "name=long255": 2, "name=nonplain": 10, "name=dot": 2, "name=dotdot": 2, "name=slash": 5, "name=backslash": 3,
+          "name=empty": 2, "name=toolong": 2, "name=otherchars": 5,
+          "store=dir": 50, "store=symlink": 5, "store=file": 5, "store=absent": 5,
+          "entry=pem-single": 20, "entry=pem-multi": 20, "entry=der-single": 20, "entry=der-concat": 20, "entry=root": 20, "entry=inter": 10, "entry=cross": 5,
+          "entry=leaf": 10, "entry=ssleaf": 10, "entry=empty": 5, "entry=garbage": 5, "entry=pem-noncert": 5, "entry=pem-text": 5, "entry=subdir": 10,
+          "entry=symlink": 10, "entry=dangling": 5,
+          "reason=empty-store": 5, "reason=tsa-nonroot-inter": 5, "reason=tsa-nonroot-cross": 3, "reason=entry-leaf": 10,
+          "bad-among-good": 20, "bad-after-good": 10, "decoy-sibling": 50, "decoy-sibling-same-type": 20, "decoy-stray-file": 50})
 
 P("C14",
   level="fault_enumeration",
@@ -136,7 +144,16 @@ P("C18",
   technique="adversarial-collaborator PBT: scripted in-process signing plugin holding real keys answers with generated edit scripts of the honest answer; independent verifier + verifier-equivalent payload decoding as oracle; native fuzz of payload bytes in thorough",
   level_text="Exploration: whatever PluginSigner.Sign/SignBlob returns for generated adversarial plugin answers is re-verified independently and compared with the request; a panic or an unchecked signature is a violation.",
   level_note="Trusts the harness's own envelope implementation; the plugin holds real keys so that only the semantic edits differ from an honest answer.",
-  health={"path=envelope": 50, "path=raw": 50, "honest": 10, "edit=descriptor": 10, "edit=annotation": 10, "edit=extra-field": 10, "edit=key-spelling": 5, "returned-signature": 10, "returned-error": 50},
+  health={"path=envelope": 50, "path=raw": 50, "honest": 10, "format=jws": 50, "format=cose": 50, "target=oci": 50, "target=blob": 50,
+          "entry=blob/api": 20, "entry=blob/signer": 20,
+          "keyspec=EC-256": 10, "keyspec=EC-384": 10, "keyspec=EC-521": 10, "keyspec=RSA-2048": 5, "keyspec=RSA-3072": 5, "keyspec=RSA-4096": 5,
+          "editgroup=descriptor": 10, "editgroup=annotation": 10, "editgroup=extra-field": 10, "editgroup=key-spelling": 5,
+          "editgroup=duplicate": 10, "editgroup=wrong-type": 10, "editgroup=envelope": 10,
+          "editgroup=key-id": 10, "editgroup=key-spec": 10, "editgroup=signature": 10, "editgroup=chain": 10,
+          "edit=spell-target": 5, "edit=dup-target-null-after": 5, "edit=echo-type-wrong": 5, "edit=format-other": 5,
+          "edit=payload-type-wrong": 5, "edit=sig-corrupt": 5, "edit=key-mismatch": 5, "edit=extra-top-unknown": 5, "edit=extra-desc-unknown": 5,
+          "edit=describe-keyid-wrong": 5, "edit=gensig-keyid-wrong": 5,
+          "fuzz-payload": 10, "returned-signature": 10, "returned-error": 50},
   fuzz=[{"name": "FuzzC18_PluginPayload", "seconds": 120}])
 
 P("C19",
